@@ -30,7 +30,7 @@ func TestMain(m *testing.M) {
 			"statement, failed commit) or rolled back to a savepoint after a write, or a query failed in the middle of a writing transaction, or a session " +
 			"read while another one had uncommitted writes or after another one committed (TestParallelTransfers: some transfer was rolled back, cancelled, failed or lost its COMMIT to a conflict); distinct by hash of the executed trace.",
 		Assumptions: []string{
-			"inside a transaction rows are read through the primary index only (WHERE clauses use key columns and columns without a secondary index): reads through a secondary index inside the writing transaction are C11's known findings K11/K12",
+			"TestInTxCompositeIndex reads through 2-3 column secondary indexes inside the writing transaction (rows rewritten so that one index column changes while the others keep their value; C11's K11/K12/K25 are repaired); in TestTxPrograms / TestPgWirePrograms rows are still read through the primary index only (WHERE clauses use key columns and columns without a secondary index): reads through a secondary index inside the writing transaction are C11's known findings K11/K12",
 			"in tables with secondary indexes a transaction does not change the indexed columns of existing rows (two rows of one transaction meeting in one index value fail with 'cannot change a non-transient key to transient'), does not re-create a row it deleted, and uses ON CONFLICT DO UPDATE only without UNIQUE indexes (the engine rejects or mishandles these, C11/C12 territory)",
 			"a table created by a transaction is only inserted into by that transaction (the engine answers 'index not found' to reads of a table created in the same transaction)",
 			"once another session has committed DDL, a transaction no longer uses the tables it created or altered itself (both catalogs handed out the same table / column ids, the engine answers 'data is corrupted' to the statement; such a transaction cannot commit anyway)",
